@@ -38,6 +38,12 @@ class AffError(Exception):
     pass
 
 
+class AffShapeError(AffError):
+    """the construction cannot run: numpy refuses the shapes (e.g. a 3 x 3
+    block stored into a 4 x 3 selection) — positive evidence, not a gap of
+    the algebra"""
+
+
 # ------------------------------------------------------------- polynomials
 # A form is a polynomial  {monomial: coefficient}; a monomial is a sorted
 # tuple of atoms, an atom one of
@@ -551,6 +557,10 @@ class Aff:
                 v = self._int(iu)
                 if len(d) != 1 or d[0] == N:
                     raise AffError("integer index of a composite dimension")
+                if not -d[0] <= v < d[0]:
+                    raise AffShapeError(
+                        f"index {v} is out of bounds for a dimension of "
+                        f"size {d[0]}")
                 out.append(("int", None, v + d[0] if v < 0 else v))
         while k < len(base):
             out.append(("all", base[k], None))
@@ -643,9 +653,18 @@ class Aff:
                     inner.append((dg[0] - off,))
                 else:
                     raise AffError("store through newaxis")
+            vd = self.dims(val)
+            sel = [d for (kind, d, off) in self._selectors(where, bd)
+                   if kind != "int"]
+            if len(vd) > len(sel) or any(
+                    fsize(a) != fsize(b) and fsize(a) != (1, 0)
+                    for a, b in zip(reversed(vd), reversed(sel))):
+                raise AffShapeError(
+                    f"a value of shape {vd} is stored into a selection of "
+                    f"shape {sel} ({tm.show(where)[:30]}): numpy raises "
+                    f"'could not broadcast'")
             if not hit:
                 return self.entry(base, idx)
-            vd = self.dims(val)
             return self.entry(val, self._align(inner, vd))
         if t.op == "binop":
             return self._binop_entry(t, idx)
@@ -737,6 +756,10 @@ class Aff:
         k = da[-1]
         if len(k) != 1 or k[0] == N:
             raise AffError("contraction over a symbolic dimension")
+        if db and fsize(db[0]) != fsize(k):
+            raise AffShapeError(
+                f"matrix product of shapes {da} and {db}: the contracted "
+                f"dimensions differ, numpy raises 'shapes not aligned'")
         out: dict = {}
         for j in range(k[0]):
             if len(db) == 1:
